@@ -1077,6 +1077,14 @@ class C18(RunSpec):
             d["sprout"]["far"] = 1e-9
         if d["gsc"]["k"] == "melimit":
             d["gsc"]["n"] = max(d["gsc"]["n"], 8)
+        if idx % 10 == 4 and d.get("kind") == "tree" and not d.get("reuse") and not d.get("soak"):
+            # rounds driven by hand through the public run_metaepoch() / run_sprout(), the tree's metaepoch counter left where it is
+            # (every second case advances it the way run_step() would): the hibernation rule is about rounds, not about the counter
+            d["entry"] = "hand"
+            d["hand_steps"] = 7 + (idx // 10) % 4
+            d["hand_bump"] = bool((idx // 10) % 2)
+            d["options"]["hibernation"] = True
+            d["gsc"] = {"k": "evals", "n": 10**9}
         if idx % 10 == 6 and len(d["levels"]) == 3 and not d.get("reuse") and not d.get("soak"):
             # pilot-then-target: an evaluation limit that is crossed *inside* a sprouting round in which two parents sprout
             rng = gen.case_rng(self.prop, seed, idx, "target")
@@ -1155,6 +1163,8 @@ class C18(RunSpec):
 
     def floors(self, tier):
         return [
+            ("C18.flag_rule_checked_in_a_round_driven_by_hand", 20, "hibernation flag rule checked after a round driven by hand (counter advanced as run_step() would)"),
+            ("C18.flag_rule_checked_in_a_round_driven_by_hand_with_the_counter_left_alone", 20, "... and with the tree's metaepoch counter left where it is"),
             ("C18.sleeping_parent_with_running_one_individual_child_on_shared_problem", 3, "sleeping parent whose one-individual child (same problem object) is running"),
             ("C18.limit_placed_inside_a_round_with_two_parents", 1, "evaluation limit crossed inside a sprouting round in which two parents sprout"),
             ("C18.flag_rule_checked.sleep.root", 1, "root put to sleep"),
